@@ -22,7 +22,7 @@ ENTRIES = ["take_step", "advance", "run_for", "get_parameter", "get_probabilitie
            "get_interval", "get_marginal", "mode", "save", "matrix_plot", "trace_plot", "plot_diagnostics"]
 FLOORS = {"key-agreement": 6, "reload-defined": 40, "save-defined": 5, "restored-value-flow": 4,
           "state-persisted": 7, "key-pairing": 4,
-          "stack-roundtrip": 2, "derived-consistent": 5, "slot-reselected": 1, "reloaded-limit-hook": 3, "ctor-arg-roundtrip": 1, "adaptation-test-survives-reload": 2}
+          "stack-roundtrip": 2, "derived-consistent": 5, "slot-reselected": 1, "reloaded-limit-hook": 3, "ctor-arg-roundtrip": 1, "adaptation-test-survives-reload": 2, "saved-key-restored": 7}
 
 
 def load_context(prog, ci):
@@ -500,6 +500,17 @@ def run(prog, tier):
     es_restored = prog.attrs_assigned_in(li)
     obs.append(struct_ob("key-agreement", qual(es, li), es_read <= es_attrs and bool(es_read),
                          f"EpsilonSelector.load_items reads {sorted(es_read - es_attrs)} not in __dict__", erel, li.lineno))
+    # saved => restored: whatever get_items / __dict__ writes is read back (a value that is saved but never read leaves the reloaded
+    # object at its constructor default: its limits, its target rate, its step-size state are then not those that were saved)
+    unread = sorted(set(written) - set(read))
+    obs.append(struct_ob("saved-key-restored", qual(pc, ld), not unread,
+                         f"Parameter.get_items writes the suffixes {unread}, which Parameter.load never reads", rel, ld.lineno,
+                         slots={"written": len(written), "read": len(read)}))
+    es_unread = sorted(a for a in es_attrs if a not in es_read)
+    es_unassigned = sorted(a for a in es_read if a not in es_restored)
+    obs.append(struct_ob("saved-key-restored", qual(es, li), not es_unread and not es_unassigned,
+                         f"EpsilonSelector saves its __dict__; load_items never reads {es_unread} / never assigns {es_unassigned}", erel, li.lineno,
+                         slots={"saved": len(es_attrs), "read": len(es_read)}))
     es_writes = {}
     for m in ("add_probability",):
         es_writes.update(ts.writes(es, m))
@@ -683,6 +694,21 @@ def run(prog, tier):
                              f"attributes mutated by {step_entry} but not persisted or not restored: {lost}", rel, sfn.lineno,
                              detail=",".join(lost), slots={"mutated": sorted(W), "saved": sorted(saved_attrs)}))
 
+        # saved => restored, per sampler class
+        dn_ = None
+        for n_ in ast.walk(lfn):
+            if isinstance(n_, ast.Subscript) and isinstance(n_.slice, ast.Constant) and isinstance(n_.slice.value, str) and isinstance(n_.value, ast.Name):
+                dn_ = n_.value.id
+                break
+        read_k = {n_.slice.value for n_ in ast.walk(lfn) if isinstance(n_, ast.Subscript) and isinstance(n_.value, ast.Name)
+                  and n_.value.id == dn_ and isinstance(n_.slice, ast.Constant)}
+        delegated = set()
+        if any(isinstance(n_, ast.Call) and isinstance(n_.func, ast.Attribute) and n_.func.attr == "load_items" for n_ in ast.walk(lfn)):
+            delegated = set(es_read)
+        unread_k = sorted(k for k in values if k not in read_k and k not in delegated)
+        obs.append(struct_ob("saved-key-restored", f"{ci.module.name}.{cname}.load", not unread_k,
+                             f"{cname}.save writes the keys {unread_k}, which load never reads: the reloaded sampler keeps the constructor's "
+                             f"default where the saved one had its own value", rel, lfn.lineno, slots={"written": len(values), "read": len(read_k)}))
         obs.append(_derived_consistent(prog, ci, cname, lfn, lc, call, var, rel))
         obs.extend(_ctor_arg_roundtrip(prog, ci, cname, lfn, call, values, rel))
 
